@@ -724,8 +724,33 @@ def every_loaded_rate_applied(F, rep):
         rep.unresolved("R6", "cache-fill", f"only {n} sites filling the FX cache found in the loader (bundled and folder expected)")
 
 
+def currency_case(F, rep):
+    """R9 (a supplied rate is never skipped for its spelling): where cgt-money recognises a currency code taken from a rates file or
+    from a caller (`Currency::from_code` in the rates parser and in the cache), the code is case-folded first — the ISO table is
+    upper-case, an unrecognised code is a legitimate reason to skip a row (old currencies), so a code looked up as written makes
+    `<currencyCode>usd</currencyCode>` vanish without an error and the bundled rate stays in force (seeded change C08-s8)."""
+    from mir import subterms
+    n = 0
+    for b, i, t in F.call_sites(lambda c: c.endswith("Currency::from_code")):
+        if b.crate != "cgt_money" or not (b.id.startswith("cgt_money::parser::") or b.id.startswith("cgt_money::cache::") or b.id.startswith("cgt_money::loader::")):
+            continue
+        if not P.user_written(F, b):
+            continue
+        n += 1
+        tb = Terms(F, b, inline_depth=1)
+        arg = tb.operand(t["args"][0])
+        ok = any(isinstance(x, tuple) and x and x[0] == "call" and parse_callee(x[1])[2] in ("to_uppercase", "to_ascii_uppercase") for x in subterms(arg))
+        rep.ob("R9", f"{b.short}:currency-case-folded", ok, "the currency code is upper-cased before the ISO look-up" if ok else
+               f"{b.short} looks the currency code up as written: a rates row (or a query) spelled in lower or mixed case is treated as an unknown currency and silently skipped",
+               b.loc(t["sp"]), key=f"R9:{b.short}:currency-case")
+    if not n:
+        rep.note("R9: no ISO currency look-up by code found in cgt-money's parser/cache/loader (nothing to judge)")
+    rep.count("R9_currency_lookups", n)
+
+
 def run(ctx, rep):
     F = ctx.F
+    currency_case(F, rep)
     folder_scan(F, rep)
     every_loaded_rate_applied(F, rep)
     conv = field_wise(F, rep)
